@@ -251,10 +251,14 @@ func judgeLiteral(c *driver.Ctx, lc *litCase, prefix string, report bool) string
 	eline, ecol := endPos(lc.raw, 1, pcol)
 	y := res.plus.Y.(*syntax.Ident)
 	if lit.TokenPos.Line != 1 || lit.TokenPos.Col != pcol {
-		return fail("C14 position Literal.TokenPos", fmt.Sprintf("literal %q starts at 1:%d, reported at %d:%d", lc.raw, pcol, lit.TokenPos.Line, lit.TokenPos.Col))
+		return fail("C14 position "+positionClass(text, nil, 1, int(pcol), int(lit.TokenPos.Line), int(lit.TokenPos.Col)), fmt.Sprintf("literal %q starts at 1:%d, reported at %d:%d", lc.raw, pcol, lit.TokenPos.Line, lit.TokenPos.Col))
 	}
 	if res.plus.OpPos.Line != eline || res.plus.OpPos.Col != ecol+1 || y.NamePos.Line != eline || y.NamePos.Col != ecol+3 {
-		return fail("C14 position token-after-literal "+litKeyClass(lc), fmt.Sprintf("after literal %q the tokens '+' and 'y' are at %d:%d and %d:%d, reported at %d:%d and %d:%d",
+		cls := positionClass(text, []token{{lc.raw, 1, pcol}}, int(eline), int(ecol+1), int(res.plus.OpPos.Line), int(res.plus.OpPos.Col))
+		if res.plus.OpPos.Line == eline && res.plus.OpPos.Col == ecol+1 {
+			cls = positionClass(text, []token{{lc.raw, 1, pcol}}, int(eline), int(ecol+3), int(y.NamePos.Line), int(y.NamePos.Col))
+		}
+		return fail("C14 position "+cls, fmt.Sprintf("after literal %q the tokens '+' and 'y' are at %d:%d and %d:%d, reported at %d:%d and %d:%d",
 			lc.raw, eline, ecol+1, eline, ecol+3, res.plus.OpPos.Line, res.plus.OpPos.Col, y.NamePos.Line, y.NamePos.Col))
 	}
 	if report {
@@ -300,6 +304,9 @@ func litKeyClass(lc *litCase) string {
 // attribute refines the key of a failing string literal by the kind of the first piece that fails on
 // its own (so that one root cause gives one key whatever else the literal contains).
 func attribute(c *driver.Ctx, lc *litCase, key string) string {
+	if strings.HasPrefix(key, "C14 position") || strings.HasPrefix(key, "C14 parser-panic") {
+		return key
+	}
 	if len(lc.pieces) < 2 || lc.mode == mMustReject {
 		if len(lc.pieces) == 1 && lc.mode != mMustReject {
 			return key + " " + lc.pieces[0].kind
